@@ -4,7 +4,7 @@ import os, re, json, subprocess, time, hashlib
 VERIF = os.path.dirname(os.path.dirname(os.path.abspath(__file__)))
 BUILD = os.path.join(VERIF, ".build", "verus")
 
-LABEL_RE = re.compile(r"\[(C\d{2}(?:,C\d{2})*):([A-Za-z0-9_.\-]+)\]")
+LABEL_RE = re.compile(r"\[((?:C\d{2}|AUX)(?:,C\d{2})*):([A-Za-z0-9_.\-]+)\]")
 
 class UnitResult:
     def __init__(self, unit):
@@ -139,7 +139,7 @@ def run_unit(unit, repo="/repo", extra_args=None, timeout=900):
         for lm in LABEL_RE.finditer(ln):
             r.labels_present.setdefault(lm.group(2), set()).update(lm.group(1).split(","))
     r.assumptions = scan_assumptions(gen)
-    cmd = ["verus", os.path.basename(out), "--output-json", "--time", "--multiple-errors", "8"] + (extra_args or [])
+    cmd = ["verus", os.path.basename(out), "--output-json", "--time", "--multiple-errors", "8", "--num-threads", "8"] + (extra_args or [])
     r.cmd = " ".join(cmd)
     try:
         p = subprocess.run(cmd, cwd=BUILD, capture_output=True, text=True, timeout=timeout)
